@@ -13,7 +13,7 @@ import (
 func init() {
 	Drivers["C06"] = driveC06
 	Levels["C06"] = "exploration"
-	Rules["C06"] = "one run = one dynamic-scope world: a root document whose if/then/else sends instances down one of two chains of 0-3 schema resources each (embedded in the root document with relative/absolute $id, or separate Loader documents), every resource with $dynamicAnchor a, $anchor a or neither, hops by $ref / fragment-less $dynamicRef / allOf / anyOf / oneOf / if-then wrappers, optionally with a detour into and out of another anchor-declaring resource through a failing anyOf branch, each resource entered at its root or at a subschema named by pointer or plain anchor (so that its root is never evaluated), both chains ending in one resource whose $dynamicRef is in fragment (#a), resource-relative (other.json#a, target on or off the path) or pointer (#/$defs/a) form; then a history of 6-16 Validate calls on ONE Resolved alternating between the chains, with right, wrong and absent markers and non-object instances, under 4 map-order schedules. Oracles: every verdict equals the 6-line outermost-first model and the verdict of the same call on a freshly resolved copy. Non-trivial = some call's dynamic target differs from its static target AND the previous call took the other chain. Distinct = hash(world text, history) x order-vector hash."
+	Rules["C06"] = "one run = one dynamic-scope world: a root document whose if/then/else sends instances down one of two chains of 0-3 schema resources each (embedded in the root document with relative/absolute $id, or separate Loader documents), every resource with $dynamicAnchor a, $anchor a or neither, hops by $ref / fragment-less $dynamicRef / allOf / anyOf / oneOf / if-then wrappers, optionally with a detour into and out of another anchor-declaring resource through a failing anyOf branch, each resource entered at its root or at a subschema named by pointer or plain anchor (so that its root is never evaluated), both chains ending in one resource whose $dynamicRef is in fragment (#a), resource-relative (other.json#a, target on or off the path) or pointer (#/$defs/a) form; then a history of 6-16 (one in twelve: 150-400) Validate calls on ONE Resolved alternating between the chains, with right, wrong and absent markers and non-object instances, under 4 map-order schedules; in a third of the worlds the final references sit below properties/k, and a third of the fan-out worlds with disjoint chains apply both chains to ONE object; anchor names are drawn from an open-ended space (a, b, a17, b203 ...); the world is also resolved with the store failing, in turn, for every document a healthy Resolve requests (Resolve must fail). Oracles: every verdict equals the 6-line outermost-first model and the verdict of the same call on a freshly resolved copy. Non-trivial = some call's dynamic target differs from its static target AND the previous call took the other chain. Distinct = hash(world text, history) x order-vector hash."
 	Assumptions["C06"] = append([]string{
 		"model: if the statically resolved target of the $dynamicRef was named by a plain-name fragment and carries $dynamicAnchor of that name, the target is the a-subschema of the first resource on the evaluation path (root first) that declares $dynamicAnchor a, or the static target if there is none; otherwise the static target (2020-12 core section 8.2.3.2)",
 		"intermediate hops are lexical ($ref, or $dynamicRef without fragment); the purely topological single-document clause is a by-product, what is claimed is the history and Loader-layout clause",
@@ -114,6 +114,15 @@ func genDynWorld(c *Ctx) *dynWorld { return genDynWorldOpt(c, false) }
 // genDynWorldOpt: with fanout the root always evaluates both chains in one call.
 func genDynWorldOpt(c *Ctx, fanout bool) *dynWorld {
 	w := &dynWorld{Docs: map[string]string{}}
+	// Anchor names come from an open-ended space (a, b, a17, b17, a203 ...): over the life of a
+	// process hundreds of distinct names are resolved, as in a service that resolves its users'
+	// schemas; whatever the library keys by name (interning tables, bit sets, caches) must not run
+	// out. (The names are baked into the rendered documents below.)
+	anchorNames = [2]string{"a", "b"}
+	if c.W(3) != 0 {
+		sfx := fmt.Sprint(c.W(300))
+		anchorNames = [2]string{"a" + sfx, "b" + sfx}
+	}
 	w.Fanout = c.W(3) == 0 || fanout
 	w.Names = 1 + c.W(2)
 	anchorChoice := func(pool []int) [2]int {
@@ -448,8 +457,18 @@ func (w *dynWorld) expectedN(p, ni int) string {
 	return w.Static[ni].marker(ni) // no resource in the dynamic scope declares the anchor: the initial target stands
 }
 
-func (w *dynWorld) loader() jsonschema.Loader {
+func (w *dynWorld) loader() jsonschema.Loader { return w.loaderFailing("", nil) }
+
+// loaderFailing is the document store with one document that cannot be had (fail != "") and a
+// log of the requests.
+func (w *dynWorld) loaderFailing(fail string, log *[]string) jsonschema.Loader {
 	return func(u *url.URL) (*jsonschema.Schema, error) {
+		if log != nil {
+			*log = append(*log, u.String())
+		}
+		if fail != "" && u.String() == fail {
+			return nil, ErrInjected
+		}
 		text, ok := w.Docs[u.String()]
 		if !ok {
 			return nil, fmt.Errorf("simulated store: no document at %s", u)
@@ -656,6 +675,36 @@ func driveC06(c *Ctx) {
 	c.Distinct("%s|%s", desc, JSON(hist))
 	scheds := []schedule{{simrt.OrderSorted, 64, 0}, {simrt.OrderReversed, 64, 1}, {simrt.OrderPerVisit, 64, 2}, {simrt.OrderShuffle, 64, 3}}
 	nontrivial := false
+	// Loader faults: every document that a healthy Resolve asks for is needed ($dynamicRef needs
+	// its initial target like $ref does); if the store cannot supply it, Resolve fails.
+	if len(w.Docs) > 0 {
+		var healthy []string
+		resolveWith := func(l jsonschema.Loader) (error, OpResult) {
+			var s jsonschema.Schema
+			if err := json.Unmarshal([]byte(w.RootDoc), &s); err != nil {
+				return err, OpResult{}
+			}
+			var err error
+			r := Op(func() { _, err = s.Resolve(&jsonschema.ResolveOptions{BaseURI: dynRootURI, Loader: l}) })
+			c.CheckOp("Resolve", r)
+			return err, r
+		}
+		if err, r := resolveWith(w.loaderFailing("", &healthy)); err == nil && !r.Panicked {
+			seen := map[string]bool{}
+			for _, uri := range healthy {
+				if seen[uri] {
+					continue
+				}
+				seen[uri] = true
+				err, r := resolveWith(w.loaderFailing(uri, nil))
+				c.Fault("loader:persistent-error")
+				if !r.Panicked && err == nil {
+					c.Fail("C06/loader-fault", "error-swallowed", "the Loader fails for %s, which a healthy Resolve of this world requests, and Resolve succeeds all the same (healthy requests %v)", uri, healthy)
+					break
+				}
+			}
+		}
+	}
 	for si, sch := range scheds {
 		sch.apply(c)
 		res, err, r := w.resolve(c)
